@@ -87,7 +87,11 @@ func (d *Driver) sendRPC(
 			time.Sleep(5 * time.Microsecond) //nolint: mnd
 		}
 
-		done <- data
+		select {
+		case done <- data:
+		case <-ctx.Done():
+			// the caller has left (deadline or error) while we were fetching the reply
+		}
 	}()
 
 	timer := time.NewTimer(d.Channel.GetTimeout(op.Timeout))
